@@ -255,16 +255,22 @@ def trace_sections(out):
         if cur is not None: secs[cur].append(ln)
     return {k: '\n'.join(v) for k, v in secs.items()}
 
-def trace_values(out, names):
-    """last assignment to each named variable in a CBMC text trace: {name: {'v': printed value, 'hex': bit pattern as hex}}"""
-    vals = {}
-    for m in re.finditer(r'^\s+([A-Za-z_][\w\[\]\.]*)=(.+?)(?: \(([01 ]+)\))?$', out, re.M):
+def trace_values(out, names, function='main'):
+    """last assignment (made in `function`, default the harness main) to each named variable in a CBMC text trace:
+    {name: {'v': printed value, 'hex': bit pattern as hex}}"""
+    vals = {}; cur = None
+    for ln in out.split('\n'):
+        m = re.match(r'^State \d+ file \S+ function (\S+) line', ln)
+        if m: cur = m.group(1); continue
+        if cur != function: continue
+        m = re.match(r'^\s+([A-Za-z_][\w\[\]\.]*)=(.+?)(?: \(([01 ]+)\))?$', ln)
+        if not m: continue
         n = m.group(1)
         base = n.split('[')[0].split('.')[0]
         if base in names or n in names:
             d = {'v': m.group(2)}
             if m.group(3):
-                b = m.group(3).replace(' ', ''); d['hex'] = '%0*x' % ((len(b) + 3) // 4, int(b, 2))
+                bits = m.group(3).replace(' ', ''); d['hex'] = '%0*x' % ((len(bits) + 3) // 4, int(bits, 2))
             vals[n] = d
     return vals
 
@@ -322,7 +328,8 @@ def run_shape(h, cfile, shape, tier):
     for p in fails:
         k = classify(p['desc'], p['id']); kinds.setdefault(k, []).append(p)
     wit_descs = [p['desc'] for p in kinds.get('witness', [])]
-    res['witness_ok'] = all(any(w in dsc for dsc in wit_descs) for w in h.required_witness)
+    req_w = shape.get('_witness', h.required_witness)
+    res['witness_ok'] = all(any(w in dsc for dsc in wit_descs) for w in req_w)
     res['failed'] = [dict(id=p['id'], desc=p['desc'], kind=classify(p['desc'], p['id'])) for p in fails if classify(p['desc'], p['id']) != 'witness']
     if nb:
         res['verdict'] = 'INCONCLUSIVE'; res['why'] = 'no body for: ' + ', '.join(nb[:6])
@@ -333,7 +340,7 @@ def run_shape(h, cfile, shape, tier):
     elif 'violation' in kinds:
         res['verdict'] = 'CEX'
     elif not res['witness_ok']:
-        res['verdict'] = 'INCONCLUSIVE'; res['why'] = 'vacuous: required witness assertion did not fail (' + ','.join(h.required_witness) + ')'
+        res['verdict'] = 'INCONCLUSIVE'; res['why'] = 'vacuous: required witness assertion did not fail (' + ','.join(req_w) + ')'
     else:
         res['verdict'] = 'HOLDS'
     res['bound_hit'] = [p['desc'] for p in kinds.get('bound', [])]
